@@ -254,9 +254,24 @@ def parse_fmt(lit):
     return segs
 
 
-def make_r_fmt(disp="vfmt_disp", lit="vfmt_lit", hex2="vfmt_hex2_upper", wmap=None):
+def make_r_fmt(disp="vfmt_disp", lit="vfmt_lit", hex2="vfmt_hex2_upper", wmap=None, merge=False):
     """R-fmt: write!(W, "fmt", args..).unwrap()  ->  { vfmt_lit(W, "..."); vfmt_disp(W, arg); ... }
-    Trusted: std::fmt writes the segments in order (DESIGN 3.2)."""
+    Trusted: std::fmt writes the segments in order (DESIGN 3.2).
+    merge=True (units whose writer abstraction records literal CHUNKS): directly adjacent literal writes to the same writer are
+    merged into one (`w("A"); w("B");` == `w("AB");`), so that re-chunking a keyword in the source is not a proof failure."""
+
+    def merge_lits(text, ctx):
+        pat = re.compile(r'%s\((\w+), "((?:[^"\\]|\\.)*)"\);(\s*)%s\(\1, "((?:[^"\\]|\\.)*)"\);' % (re.escape(lit), re.escape(lit)))
+        n = 0
+        while True:
+            m = pat.search(text)
+            if not m:
+                break
+            text = text[:m.start()] + '%s(%s, "%s%s");' % (lit, m.group(1), m.group(2), m.group(4)) + text[m.end():]
+            n += 1
+        if n:
+            ctx.app("R-fmt-merge", "%d pair(s) of adjacent literal writes" % n, "one literal write each")
+        return text
 
     def r_fmt(text, ctx):
         while True:
@@ -268,7 +283,7 @@ def make_r_fmt(disp="vfmt_disp", lit="vfmt_lit", hex2="vfmt_hex2_upper", wmap=No
                     hit = k
                     break
             if hit is None:
-                return text
+                return merge_lits(text, ctx) if merge else text
             k = hit
             close = rl.match_close(code, k + 2)
             inner = text[code[k + 2].end:code[close].start]
